@@ -19,8 +19,8 @@
 (***************************************************************************)
 EXTENDS Cache, Sequences, Json, IOUtils, TLCExt
 
-VARIABLES tid, l, oLoads, oAcc, oFail
-tvars == <<vars, tid, l, oLoads, oAcc, oFail>>
+VARIABLES tid, l, oLoads, oAcc, oFail, oClr
+tvars == <<vars, tid, l, oLoads, oAcc, oFail, oClr>>
 
 Traces == JsonDeserialize(IOEnv.TRACE_FILE).traces
 ASSUME TLCSet(1, {}) /\ TLCSet(2, {})
@@ -38,20 +38,25 @@ TInit ==
   /\ oLoads = [i \in Idx |-> 0]
   /\ oAcc = [p \in Procs |-> NoAcc]
   /\ oFail = {}
+  /\ oClr = [p \in Procs |-> FALSE]
   /\ TLCSet(100 + tid, 0)
 
 (* ------------------------------- Obs ----------------------------------- *)
 IsEv(a) == l <= NEv /\ Ev(l).a = a
 ObsStep(fail) == /\ l' = l + 1 /\ oFail' = fail /\ UNCHANGED <<vars, tid>>
+\* is a post-cache transform configured? (cfg.tr; without one the cached dataset returns the wrapped value as it is)
+Tr == Traces[tid].cfg.tr
+Want == IF Tr THEN "Tb" ELSE "b"
 
 ObsBegin ==
   /\ IsEv("begin")
   /\ oAcc' = [oAcc EXCEPT ![Ev(l).p] = [active |-> TRUE, i |-> Ev(l).i, clearSeen |-> FALSE, loaded |-> FALSE]]
-  /\ UNCHANGED oLoads /\ ObsStep({})
+  /\ UNCHANGED <<oLoads, oClr>> /\ ObsStep({})
 ObsLoad ==
   /\ IsEv("op") /\ Ev(l).op = "load"
   /\ oLoads' = [oLoads EXCEPT ![Ev(l).key] = @ + 1]
   /\ oAcc' = [oAcc EXCEPT ![Ev(l).p].loaded = TRUE]
+  /\ UNCHANGED oClr
   \* per clear-segment a process loads a sample at most once (a single process: at most one load between clears)
   /\ ObsStep(IF oLoads'[Ev(l).key] > NProcs THEN {"LoadBound"} ELSE {})
 ObsClear ==
@@ -59,25 +64,36 @@ ObsClear ==
   \* a load made by an access that is still in flight may be stored after the clear: it stays valid for this segment
   /\ oLoads' = [i \in Idx |-> Cardinality({p \in Procs : oAcc[p].active /\ oAcc[p].i = i /\ oAcc[p].loaded})]
   /\ oAcc' = [p \in Procs |-> IF oAcc[p].active THEN [oAcc[p] EXCEPT !.clearSeen = TRUE] ELSE oAcc[p]]
-  /\ ObsStep({})
+  /\ oClr' = [oClr EXCEPT ![Ev(l).p] = FALSE]
+  \* the cache is only ever cleared by dispose()
+  /\ ObsStep(IF oClr[Ev(l).p] THEN {} ELSE {"UnrequestedClear"})
 ObsOther ==
   /\ \/ IsEv("op") /\ Ev(l).op \notin {"load", "clear"}
-     \/ IsEv("beginclear")
+     \/ IsEv("begincopy")
+  /\ UNCHANGED <<oLoads, oAcc, oClr>> /\ ObsStep({})
+ObsBeginClear ==
+  /\ IsEv("beginclear")
+  /\ oClr' = [oClr EXCEPT ![Ev(l).p] = TRUE]
   /\ UNCHANGED <<oLoads, oAcc>> /\ ObsStep({})
+\* a value delivered through a DataLoader (no operation log): observational equality only
+ObsPlain ==
+  /\ IsEv("plain")
+  /\ UNCHANGED <<oLoads, oAcc, oClr>>
+  /\ ObsStep(IF Ev(l).val = Want /\ Ev(l).vi = Ev(l).i THEN {} ELSE {"Transparent"})
 ObsRet ==
   /\ IsEv("ret")
   /\ LET e == Ev(l) a == oAcc[e.p] IN
        /\ oAcc' = [oAcc EXCEPT ![e.p] = NoAcc]
-       /\ UNCHANGED oLoads
+       /\ UNCHANGED <<oLoads, oClr>>
        /\ ObsStep(
             \* observationally equal to the wrapped dataset, transform applied exactly once per access
-            (IF a.active /\ e.val = "Tb" /\ e.vi = a.i /\ e.i = a.i THEN {} ELSE {"Transparent"})
-            \cup (IF e.tcalls = 1 THEN {} ELSE {"TransformEveryAccess"})
+            (IF a.active /\ e.val = Want /\ e.vi = a.i /\ e.i = a.i THEN {} ELSE {"Transparent"})
+            \cup (IF e.tcalls = (IF Tr THEN 1 ELSE 0) THEN {} ELSE {"TransformEveryAccess"})
             \* after a clear samples are loaded again: a value can only come from a load of this clear-segment,
             \* unless a clear happened while this access was in flight
             \cup (IF oLoads[e.i] >= 1 \/ a.clearSeen THEN {} ELSE {"ReloadAfterClear"}))
-ObsExc == IsEv("exc") /\ UNCHANGED <<oLoads, oAcc>> /\ ObsStep({"NoError"})
-ObsNext == ObsBegin \/ ObsLoad \/ ObsClear \/ ObsOther \/ ObsRet \/ ObsExc
+ObsExc == IsEv("exc") /\ UNCHANGED <<oLoads, oAcc, oClr>> /\ ObsStep({"NoError"})
+ObsNext == ObsBegin \/ ObsLoad \/ ObsClear \/ ObsOther \/ ObsBeginClear \/ ObsPlain \/ ObsRet \/ ObsExc
 ObsSpec == TInit /\ [][ObsNext]_tvars
 
 ObsCollect ==
@@ -89,7 +105,7 @@ ObsConstraint == ObsCollect /\ oFail = {}
 (* ------------------------------- Desc ---------------------------------- *)
 Keys == {i \in Idx : dict[i] # None}
 SeqToSet(s) == {s[j] : j \in 1..Len(s)}
-Consume == l' = l + 1 /\ UNCHANGED <<tid, oLoads, oAcc, oFail>>
+Consume == l' = l + 1 /\ UNCHANGED <<tid, oLoads, oAcc, oFail, oClr>>
 IsOp(o) == IsEv("op") /\ Ev(l).op = o
 KeysAgree == Keys' = SeqToSet(Ev(l).keys)
 
@@ -104,7 +120,8 @@ DescNext ==
   \/ IsOp("setitem") /\ Store(Ev(l).p) /\ Ev(l).key = req[Ev(l).p] /\ KeysAgree /\ Consume
   \/ IsOp("clear") /\ Clear(Ev(l).p) /\ KeysAgree /\ Consume
   \/ IsEv("ret") /\ Return(Ev(l).p) /\ Consume
-         /\ Ev(l).i = req[Ev(l).p] /\ (Ev(l).val = "Tb" /\ Ev(l).vi = Ev(l).i) = (ret'[Ev(l).p] = T(Base(Ev(l).i)))
+         /\ Ev(l).i = req[Ev(l).p] /\ (Ev(l).val = Want /\ Ev(l).vi = Ev(l).i) = (ret'[Ev(l).p] = T(Base(Ev(l).i)))
+  \/ (IsEv("begincopy") \/ IsEv("plain")) /\ UNCHANGED vars /\ Consume
   \/ IsEv("exc") /\ pc[Ev(l).p] = "idle" /\ err /\ UNCHANGED vars /\ Consume
 DescSpec == TInit /\ [][DescNext]_tvars
 DescCollect ==
